@@ -1,14 +1,286 @@
 ---- MODULE KDoc ----
+(***************************************************************************)
+(* The JSON Document kernel of orda-io/orda (client/pkg/orda/document.go,  *)
+(* json_object.go, json_array.go, json_primitive.go).                      *)
+(*                                                                         *)
+(* A snapshot is the flat node table  C |-> node  (jsonCommon.NodeMap),    *)
+(* keyed by creation timestamp C = <<lamport, client, delimiter>>:         *)
+(*   kind "E" element (v = value tag), "O" object (m: key |-> child C,     *)
+(*   a mapSnapshot with last-writer-wins), "A" array (items: RGA sequence  *)
+(*   of slots [o |-> order id, c |-> C of the node now in the slot]).      *)
+(* D # NoTs marks a tombstone.  The Cemetery is not modelled (nothing      *)
+(* reads it).  Nested values get their identities from the delimiter       *)
+(* counter along a traversal of the value: container first, then children; *)
+(* object children in sorted key order (the deterministic order the design *)
+(* needs).                                                                 *)
+(*                                                                         *)
+(* JSON values: [t |-> "p", p |-> tag] | [t |-> "o", o |-> [key -> value]] *)
+(*              | [t |-> "a", a |-> <<values>>]                            *)
+(* Calls name their container by a path of strings from the root (array    *)
+(* positions as decimal strings), which both the real document and the     *)
+(* plain JSON tree can resolve.                                            *)
+(***************************************************************************)
 EXTENDS OrdaIds
-DInit == 0
-DLocal(s, call, ts) == [s |-> s, ret |-> 0, body |-> [type |-> "none"]]
-DRemote(s, op) == s
-DView(s) == s
-DSize(s) == 0
-DPlainInit == 0
-DPlain(p, call) == [p |-> p, ret |-> 0]
+
+CONSTANTS DocNKeys,   \* how many of the object keys <<"x", "y">> are used (keys are kept in sorted order)
+          DocShapes,  \* shapes of the values put / inserted: subset of {"p","o0","o1","o2","a0","a2","oa","ao","o2a"}
+          DocMaxBatch \* values per array insert / update / delete
+
+DocKeys == SubSeq(<<"x", "y">>, 1, DocNKeys)
+
+DKeySet == {DocKeys[i] : i \in 1..Len(DocKeys)}
+DMerge(f, g) == [x \in (DOMAIN f) \cup (DOMAIN g) |-> IF x \in DOMAIN g THEN g[x] ELSE f[x]]
+DEmpty == [x \in {} |-> HeadTs]
+
+VP(i) == [t |-> "p", p |-> i]
+VO(f) == [t |-> "o", o |-> f]
+VA(s) == [t |-> "a", a |-> s]
+
+\* value shapes; tags t1, t2 make every primitive unique
+Shape(name, t1, t2) ==
+    CASE name = "p"  -> VP(t1)
+      [] name = "o0" -> VO(DEmpty)
+      [] name = "o1" -> VO(DocKeys[1] :> VP(t1))
+      [] name = "o2" -> VO(("x" :> VP(t1)) @@ ("y" :> VP(t2)))
+      [] name = "a0" -> VA(<<>>)
+      [] name = "a2" -> VA(<<VP(t1), VP(t2)>>)
+      [] name = "oa" -> VO(DocKeys[1] :> VA(<<VP(t1)>>))
+      [] name = "ao" -> VA(<<VO(DocKeys[1] :> VP(t1))>>)
+      [] name = "o2a" -> VO(("x" :> VA(<<VP(t1)>>)) @@ ("y" :> VA(<<VP(t2)>>)))
+
+DNode(kind, parent, c) == [kind |-> kind, parent |-> parent, C |-> c, D |-> NoTs, v |-> -1, m |-> DEmpty, items |-> <<>>]
+DIsTomb(n) == n.D # NoTs
+DTime(n) == IF DIsTomb(n) THEN n.D ELSE n.C
+SortedKeys(S) == SelectSeq(<<"x", "y">>, LAMBDA k : k \in S)
+
+\* createJSONType: Create(parent, v, l, c, d) -> [tbl: new nodes, root: C of v's node, d: next delimiter]
+RECURSIVE DCreate(_, _, _, _, _), DCreateSeq(_, _, _, _, _), DCreateKeys(_, _, _, _, _, _)
+DCreate(parent, v, l, c, d) ==
+    LET me == <<l, c, d>> IN
+    CASE v.t = "p" -> [tbl |-> (me :> [DNode("E", parent, me) EXCEPT !.v = v.p]), root |-> me, d |-> d + 1]
+      [] v.t = "a" -> LET r == DCreateSeq(me, v.a, l, c, d + 1)
+                          n == [DNode("A", parent, me) EXCEPT !.items = [i \in 1..Len(r.roots) |-> [o |-> r.roots[i], c |-> r.roots[i]]]]
+                      IN [tbl |-> DMerge(r.tbl, me :> n), root |-> me, d |-> r.d]
+      [] v.t = "o" -> LET r == DCreateKeys(me, v.o, SortedKeys(DOMAIN v.o), l, c, d + 1)
+                          n == [DNode("O", parent, me) EXCEPT !.m = r.m]
+                      IN [tbl |-> DMerge(r.tbl, me :> n), root |-> me, d |-> r.d]
+DCreateSeq(parent, vs, l, c, d) ==
+    IF vs = <<>> THEN [tbl |-> [x \in {} |-> 0], roots |-> <<>>, d |-> d]
+    ELSE LET h == DCreate(parent, Head(vs), l, c, d)
+             t == DCreateSeq(parent, Tail(vs), l, c, h.d)
+         IN [tbl |-> DMerge(h.tbl, t.tbl), roots |-> <<h.root>> \o t.roots, d |-> t.d]
+DCreateKeys(parent, f, ks, l, c, d) ==
+    IF ks = <<>> THEN [tbl |-> [x \in {} |-> 0], m |-> DEmpty, d |-> d]
+    ELSE LET h == DCreate(parent, f[Head(ks)], l, c, d)
+             t == DCreateKeys(parent, f, Tail(ks), l, c, h.d)
+         IN [tbl |-> DMerge(h.tbl, t.tbl), m |-> DMerge(t.m, Head(ks) :> h.root), d |-> t.d]
+
+\* ---- views
+RECURSIVE DViewOf(_, _)
+DViewOf(T, c) ==
+    LET n == T[c] IN
+    CASE n.kind = "E" -> VP(n.v)
+      [] n.kind = "O" -> VO([k \in {k \in DOMAIN n.m : ~DIsTomb(T[n.m[k]])} |-> DViewOf(T, n.m[k])])
+      [] n.kind = "A" -> LET live == SelectSeq(n.items, LAMBDA it : ~DIsTomb(T[it.c]))
+                         IN VA([i \in 1..Len(live) |-> DViewOf(T, live[i].c)])
+RECURSIVE DIsGarbage(_, _)
+DIsGarbage(T, c) == DIsTomb(T[c]) \/ (T[c].parent # NoTs /\ DIsGarbage(T, T[c].parent))
+DLiveItems(T, n) == SelectSeq(n.items, LAMBDA it : ~DIsTomb(T[it.c]))
+
+\* ---- applying operations (ExecuteRemote; ExecuteLocal differs only in how targets are found)
+DBury(T, c, ts) == [T EXCEPT ![c].D = ts]
+DPutApply(T, op) ==
+    IF op.P \notin DOMAIN T \/ T[op.P].kind # "O" THEN T
+    ELSE LET cr == DCreate(op.P, op.V, op.ts[1], op.ts[2], 0)
+             T1 == DMerge(T, cr.tbl)
+             par == T1[op.P]
+         IN IF op.K \notin DOMAIN par.m
+            THEN [T1 EXCEPT ![op.P].m = DMerge(par.m, op.K :> cr.root)]
+            ELSE LET old == par.m[op.K] IN
+                 IF TsLess(DTime(T1[old]), cr.root)
+                 THEN DBury([T1 EXCEPT ![op.P].m = DMerge(par.m, op.K :> cr.root)], old, cr.root)
+                 ELSE DBury(T1, cr.root, T1[old].C)
+DRmvApply(T, op) ==
+    IF op.P \notin DOMAIN T \/ T[op.P].kind # "O" \/ op.K \notin DOMAIN T[op.P].m THEN T
+    ELSE LET old == T[op.P].m[op.K] IN
+         IF TsLess(DTime(T[old]), op.ts) THEN DBury(T, old, op.ts) ELSE T
+DInsertAt(s, i, ns) == SubSeq(s, 1, i) \o ns \o SubSeq(s, i + 1, Len(s))
+DIdxOfO(items, o) == IF o = HeadTs THEN 0 ELSE CHOOSE i \in 1..Len(items) : items[i].o = o
+DHasO(items, o) == o = HeadTs \/ \E i \in 1..Len(items) : items[i].o = o
+RECURSIVE DSkipNewer(_, _, _)
+DSkipNewer(items, i, ts) == IF i < Len(items) /\ TsLess(ts, items[i + 1].o) THEN DSkipNewer(items, i + 1, ts) ELSE i
+DInsApply(T, op) ==
+    IF op.P \notin DOMAIN T \/ T[op.P].kind # "A" \/ ~DHasO(T[op.P].items, op.T) THEN T
+    ELSE LET cr == DCreateSeq(op.P, op.V, op.ts[1], op.ts[2], 0)
+             T1 == DMerge(T, cr.tbl)
+             its == T1[op.P].items
+             at == DSkipNewer(its, DIdxOfO(its, op.T), op.ts)
+             new == [i \in 1..Len(cr.roots) |-> [o |-> cr.roots[i], c |-> cr.roots[i]]]
+         IN [T1 EXCEPT ![op.P].items = DInsertAt(its, at, new)]
+RECURSIVE DDelFold(_, _, _, _)
+DDelFold(T, op, its, k) ==
+    IF k > Len(op.T) THEN T
+    ELSE LET dts == Delim(op.ts, k - 1) IN
+         IF ~DHasO(its, op.T[k]) \/ op.T[k] = HeadTs THEN DDelFold(T, op, its, k + 1)
+         ELSE LET c == its[DIdxOfO(its, op.T[k])].c IN
+              IF ~DIsTomb(T[c]) \/ TsLess(T[c].D, dts) THEN DDelFold(DBury(T, c, dts), op, its, k + 1)
+              ELSE DDelFold(T, op, its, k + 1)
+DDelApply(T, op) == IF op.P \notin DOMAIN T \/ T[op.P].kind # "A" THEN T ELSE DDelFold(T, op, T[op.P].items, 1)
+RECURSIVE DUpdFold(_, _, _, _)
+DUpdFold(T, op, k, d) ==
+    IF k > Len(op.T) THEN T
+    ELSE LET cr == DCreate(op.P, op.V[k], op.ts[1], op.ts[2], d)
+             T1 == DMerge(T, cr.tbl)
+             its == T1[op.P].items IN
+         IF ~DHasO(its, op.T[k]) \/ op.T[k] = HeadTs THEN DUpdFold(T1, op, k + 1, cr.d)
+         ELSE LET i == DIdxOfO(its, op.T[k])
+                  old == its[i].c IN
+              IF ~DIsTomb(T1[old]) /\ TsLess(T1[old].C, cr.root)
+              THEN DUpdFold(DBury([T1 EXCEPT ![op.P].items[i].c = cr.root], old, cr.root), op, k + 1, cr.d)
+              ELSE DUpdFold(DBury(T1, cr.root, T1[old].C), op, k + 1, cr.d)
+DUpdApply(T, op) == IF op.P \notin DOMAIN T \/ T[op.P].kind # "A" THEN T ELSE DUpdFold(T, op, 1, 0)
+
+DRemote(T, op) == CASE op.type = "put" -> DPutApply(T, op)
+                    [] op.type = "rmv" -> DRmvApply(T, op)
+                    [] op.type = "ins" -> DInsApply(T, op)
+                    [] op.type = "del" -> DDelApply(T, op)
+                    [] op.type = "upd" -> DUpdApply(T, op)
+
+DInit == HeadTs :> DNode("O", NoTs, HeadTs)
+DView(T) == DViewOf(T, HeadTs)
+DSize(T) == 0
+
+\* ---- local calls: resolve the container by path, build the operation, apply it
+\* live containers reachable from the root: set of [path, c]
+RECURSIVE DReach(_, _, _)
+DReach(T, c, path) ==
+    LET n == T[c] IN
+    CASE n.kind = "E" -> {}
+      [] n.kind = "O" -> {[path |-> path, c |-> c]} \cup
+                         UNION {DReach(T, n.m[k], Append(path, k)) : k \in {k \in DOMAIN n.m : ~DIsTomb(T[n.m[k]])}}
+      [] n.kind = "A" -> LET live == DLiveItems(T, n) IN
+                         {[path |-> path, c |-> c]} \cup
+                         UNION {DReach(T, live[i].c, Append(path, ToString(i - 1))) : i \in 1..Len(live)}
+DContainers(T) == DReach(T, HeadTs, <<>>)
+DResolve(T, path) == (CHOOSE x \in DContainers(T) : x.path = path).c
+
+DBatch(shapes, r, n) == [j \in 1..Len(shapes) |-> Shape(shapes[j], r * 1000 + n * 10 + 2 * j - 1, r * 1000 + n * 10 + 2 * j)]
+DShapeSeqs == UNION {[1..len -> DocShapes] : len \in 1..DocMaxBatch}
+
+DValidCalls(T, r, n) ==
+    UNION {LET node == T[x.c] IN
+           IF node.kind = "O"
+           THEN {[op |-> "put", path |-> x.path, k |-> k, v |-> Shape(s, r * 1000 + n * 10 + 1, r * 1000 + n * 10 + 2)]
+                     : k \in DKeySet, s \in DocShapes}
+                \cup {[op |-> "rmv", path |-> x.path, k |-> k] : k \in {k \in DOMAIN node.m : ~DIsTomb(T[node.m[k]])}}
+           ELSE LET sz == Len(DLiveItems(T, node)) IN
+                {[op |-> "ins", path |-> x.path, pos |-> p, vals |-> DBatch(ss, r, n)] : p \in 0..sz, ss \in DShapeSeqs}
+                \cup {[op |-> "del", path |-> x.path, pos |-> pc[1], n |-> pc[2]]
+                         : pc \in {q \in (0..sz) \X (1..DocMaxBatch) : q[1] + q[2] <= sz}}
+                \cup {[op |-> "upd", path |-> x.path, pos |-> pq[1], vals |-> DBatch(pq[2], r, n)]
+                         : pq \in {q \in (0..sz) \X DShapeSeqs : q[1] + Len(q[2]) <= sz}}
+          : x \in DContainers(T)}
+
+\* calls the document must refuse: wrong container kind, bad index, empty key is accepted by the code
+\* (not classified), removing an absent key ("free")
+DInvalidCalls(T, r, n) ==
+    UNION {LET node == T[x.c] IN
+           IF node.kind = "O"
+           THEN {[op |-> "ins", path |-> x.path, pos |-> 0, vals |-> DBatch(<<"p">>, r, n), err |-> "must"],
+                 [op |-> "del", path |-> x.path, pos |-> 0, n |-> 1, err |-> "must"],
+                 [op |-> "put", path |-> x.path, k |-> DocKeys[1], v |-> VP(-1), err |-> "must"]}      \* null value
+                \* a call on a child container that has been removed or overwritten (the caller still holds it)
+                \cup UNION {{[op |-> "put", path |-> Append(x.path, k), k |-> DocKeys[1], v |-> VP(r * 1000 + n * 10 + 1), dead |-> TRUE, err |-> "must"],
+                             [op |-> "ins", path |-> Append(x.path, k), pos |-> 0, vals |-> DBatch(<<"p">>, r, n), dead |-> TRUE, err |-> "must"]}
+                            : k \in {k \in DOMAIN node.m : DIsTomb(T[node.m[k]]) /\ T[node.m[k]].kind # "E"}}
+                \cup {[op |-> "rmv", path |-> x.path, k |-> k, err |-> "free"]
+                         : k \in {k \in DKeySet : k \notin DOMAIN node.m \/ DIsTomb(T[node.m[k]])}}
+           ELSE LET sz == Len(DLiveItems(T, node)) IN
+                {[op |-> "put", path |-> x.path, k |-> DocKeys[1], v |-> VP(r * 1000 + n * 10 + 1), err |-> "must"],
+                 [op |-> "ins", path |-> x.path, pos |-> sz + 1, vals |-> DBatch(<<"p">>, r, n), err |-> "must"],
+                 [op |-> "ins", path |-> x.path, pos |-> -1, vals |-> DBatch(<<"p">>, r, n), err |-> "must"],
+                 [op |-> "del", path |-> x.path, pos |-> sz, n |-> 1, err |-> "must"],
+                 [op |-> "upd", path |-> x.path, pos |-> sz, vals |-> DBatch(<<"p">>, r, n), err |-> "must"],
+                 [op |-> "ins", path |-> x.path, pos |-> 0, vals |-> <<VP(-1)>>, err |-> "must"]}                \* null value
+                \cup (IF sz > 0 THEN {[op |-> "upd", path |-> x.path, pos |-> 0, vals |-> <<VP(-1)>>, err |-> "must"]} ELSE {})
+          : x \in DContainers(T)}
+
+DLocal(T, call, ts) ==
+    LET c == DResolve(T, call.path)
+        node == T[c]
+        live == DLiveItems(T, node)
+    IN CASE call.op = "put" ->
+              LET op == [type |-> "put", ts |-> ts, P |-> c, K |-> call.k, V |-> call.v]
+                  old == IF call.k \in DOMAIN node.m /\ ~DIsTomb(T[node.m[call.k]]) THEN DViewOf(T, node.m[call.k]) ELSE VP(-1)
+              IN [s |-> DPutApply(T, op), ret |-> old, body |-> [type |-> "put", P |-> c, K |-> call.k, V |-> call.v]]
+         [] call.op = "rmv" ->
+              LET op == [type |-> "rmv", ts |-> ts, P |-> c, K |-> call.k]
+              IN [s |-> DRmvApply(T, op), ret |-> DViewOf(T, node.m[call.k]), body |-> [type |-> "rmv", P |-> c, K |-> call.k]]
+         [] call.op = "ins" ->
+              LET tgt == IF call.pos = 0 THEN HeadTs ELSE live[call.pos].o
+                  op == [type |-> "ins", ts |-> ts, P |-> c, T |-> tgt, V |-> call.vals]
+                  \* local insert goes right after the anchor (no sibling skip)
+                  cr == DCreateSeq(c, call.vals, ts[1], ts[2], 0)
+                  T1 == DMerge(T, cr.tbl)
+                  new == [i \in 1..Len(cr.roots) |-> [o |-> cr.roots[i], c |-> cr.roots[i]]]
+              IN [s |-> [T1 EXCEPT ![c].items = DInsertAt(T1[c].items, DIdxOfO(T1[c].items, tgt), new)],
+                  ret |-> VP(-1), body |-> [type |-> "ins", P |-> c, T |-> tgt, V |-> call.vals]]
+         [] call.op = "del" ->
+              LET tg == [k \in 1..call.n |-> live[call.pos + k].o]
+                  op == [type |-> "del", ts |-> ts, P |-> c, T |-> tg]
+              IN [s |-> DDelApply(T, op), ret |-> [k \in 1..call.n |-> DViewOf(T, live[call.pos + k].c)],
+                  body |-> [type |-> "del", P |-> c, T |-> tg]]
+         [] call.op = "upd" ->
+              LET tg == [k \in 1..Len(call.vals) |-> live[call.pos + k].o]
+                  op == [type |-> "upd", ts |-> ts, P |-> c, T |-> tg, V |-> call.vals]
+              IN [s |-> DUpdApply(T, op), ret |-> [k \in 1..Len(call.vals) |-> DViewOf(T, live[call.pos + k].c)],
+                  body |-> [type |-> "upd", P |-> c, T |-> tg, V |-> call.vals]]
+
+\* ---- the plain structure: a JSON tree
+RECURSIVE PSet(_, _, _)
+\* replace the container at path by nv
+PSet(p, path, nv) ==
+    IF path = <<>> THEN nv
+    ELSE IF p.t = "o" THEN VO([p.o EXCEPT ![Head(path)] = PSet(@, Tail(path), nv)])
+    ELSE LET i == CHOOSE i \in 1..Len(p.a) : ToString(i - 1) = Head(path)
+         IN VA([p.a EXCEPT ![i] = PSet(@, Tail(path), nv)])
+RECURSIVE PGet(_, _)
+PGet(p, path) == IF path = <<>> THEN p
+                 ELSE IF p.t = "o" THEN PGet(p.o[Head(path)], Tail(path))
+                 ELSE PGet(p.a[CHOOSE i \in 1..Len(p.a) : ToString(i - 1) = Head(path)], Tail(path))
+DPlainInit == VO(DEmpty)
 DPlainView(p) == p
-DRef(ops) == 0
-DValidCalls(s, r, n) == {}
-DInvalidCalls(s, r, n) == {}
+DPlain(p, call) ==
+    LET cont == PGet(p, call.path) IN
+    CASE call.op = "put" -> [p |-> PSet(p, call.path, VO(DMerge(cont.o, call.k :> call.v))),
+                             ret |-> IF call.k \in DOMAIN cont.o THEN cont.o[call.k] ELSE VP(-1)]
+      [] call.op = "rmv" -> [p |-> PSet(p, call.path, VO([k \in (DOMAIN cont.o) \ {call.k} |-> cont.o[k]])),
+                             ret |-> cont.o[call.k]]
+      [] call.op = "ins" -> [p |-> PSet(p, call.path, VA(DInsertAt(cont.a, call.pos, call.vals))), ret |-> VP(-1)]
+      [] call.op = "del" -> [p |-> PSet(p, call.path, VA(SubSeq(cont.a, 1, call.pos) \o SubSeq(cont.a, call.pos + call.n + 1, Len(cont.a)))),
+                             ret |-> SubSeq(cont.a, call.pos + 1, call.pos + call.n)]
+      [] call.op = "upd" -> [p |-> PSet(p, call.path, VA([i \in 1..Len(cont.a) |->
+                                        IF i > call.pos /\ i <= call.pos + Len(call.vals) THEN call.vals[i - call.pos] ELSE cont.a[i]])),
+                             ret |-> SubSeq(cont.a, call.pos + 1, call.pos + Len(call.vals))]
+
+\* ---- reference outcome of a SET of document operations: the operations applied one at a time in
+\* timestamp order (a causal order; it does not depend on arrival order)
+RECURSIVE DSorted(_)
+DSorted(S) == IF S = {} THEN <<>>
+              ELSE LET m == CHOOSE o \in S : \A p \in S : p = o \/ TsLess(o.ts, p.ts) IN <<m>> \o DSorted(S \ {m})
+RECURSIVE DFoldOps(_, _)
+DFoldOps(T, ops) == IF ops = <<>> THEN T ELSE DFoldOps(DRemote(T, Head(ops)), Tail(ops))
+DRef(S) == DView(DFoldOps(DInit, DSorted(S)))
+
+\* explicit statement of the object rule for C02: a key of a reachable object shows the value created by
+\* the put with the greatest timestamp among the operations addressed to that object and key, and nothing
+\* if a remove with a still greater timestamp was applied
+DObjRule(T, S) ==
+    \A x \in DContainers(T) : T[x.c].kind = "O" =>
+        \A k \in DKeySet :
+            LET onk == {o \in S : o.type \in {"put", "rmv"} /\ o.P = x.c /\ o.K = k}
+                shown == k \in DOMAIN T[x.c].m /\ ~DIsTomb(T[T[x.c].m[k]])
+            IN IF onk = {} THEN (x.c = HeadTs => ~shown)
+               ELSE LET w == CHOOSE o \in onk : \A p \in onk : p = o \/ TsLess(p.ts, o.ts)
+                    IN IF w.type = "rmv" THEN ~shown ELSE shown /\ T[x.c].m[k] = <<w.ts[1], w.ts[2], 0>>
 ====
